@@ -187,7 +187,7 @@ class Ctx:
                 "-noGenerateSpecTE"]
         if simulate:
             cmd += ["-simulate", "num=%d" % simulate, "-depth", str(depth or 50),
-                    "-seed", str(self.seed)]
+                    "-seed", str(getattr(self, "tlc_seed", None) or self.seed)]
         elif dfid:
             cmd += ["-dfid", str(dfid)]
         cexp = os.path.join(run_dir, "cex.json")
